@@ -26,7 +26,8 @@ structure PhysPt (c : Consts) (pt : Pt) (M r sl pT : ℝ) : Prop where
 
 theorem prepare_eps2_eq (c : Consts) (pt : Pt) {M : ℝ} (hMp : c.Mp = M) (hQ : 0 < pt.Q2) :
     (prepare c pt).eps2 = 4 * pt.xB ^ 2 * M ^ 2 / pt.Q2 := by
-  have h : (prepare c pt).eps2 = (2 * pt.xB * c.Mp / ksqrt pt.Q2) ^ 2 := rfl
+  have h : (prepare c pt).eps2 = (2 * pt.xB * c.Mp / ksqrt pt.Q2) ^ 2 := by
+    bridge_simp [prepare]
   rw [h, hMp, div_pow, ksqrt_sq hQ.le]; ring
 
 /-- the rest frame of a prepared point -/
@@ -57,7 +58,7 @@ theorem TBH2TP_prepared (c : Consts) (m : CFFs) (pt : Pt) {M r sl pT : ℝ} (h :
 /-- the twist-two transverse-target squared-DVCS term vanishes with the CFFs (not among the generated lemmas:
     BMK.CCALDVCSTP returns a pair) -/
 theorem BMK_TDVCS2TP_zeroCFFs (c : Consts) (m : CFFs) (pt : Pt) : BMK.TDVCS2TP c (zeroCFFs m) pt = 0 := by
-  simp only [BMK.TDVCS2TP, BMK.cDVCS0TP, BMK.CCALDVCSTP, bmk_sym, Gep.Cx.mk_re, Gep.Cx.mk_im, Gep.Cx.add_re,
+  bridge_simp [BMK.TDVCS2TP, BMK.cDVCS0TP, BMK.CCALDVCSTP, bmk_sym, Gep.Cx.mk_re, Gep.Cx.mk_im, Gep.Cx.add_re,
     Gep.Cx.add_im, Gep.Cx.sub_re, Gep.Cx.sub_im, Gep.Cx.neg_re, Gep.Cx.neg_im, Gep.Cx.mul_re, Gep.Cx.mul_im,
     Gep.Cx.smul_re, Gep.Cx.smul_im, Gep.Cx.divR_re, Gep.Cx.divR_im, mul_zero, zero_mul, add_zero, sub_zero, neg_zero,
     zero_div, sub_self]
